@@ -550,4 +550,91 @@ theorem reprOKKV_value : ∀ kvs, validKV kvs = true →
     simp [valueKV, reprOKKV, vkeys, keysOf, hvk, hb, reprOK_value v hv, h1, h2]
 end
 
+
+/-! ### every in-domain value has a valid wire tree (`canon`) -/
+
+theorem intOk_smallest (i : Int) (h1 : -(2 ^ 63) ≤ i) (h2 : i < 2 ^ 64) : intOk (smallestInt i) i = true := by
+  unfold smallestInt
+  split
+  · simp [intOk]; omega
+  · split
+    · split
+      · simp [intOk]; omega
+      · split
+        · simp [intOk]; omega
+        · split
+          · simp [intOk]; omega
+          · simp [intOk]; omega
+    · split
+      · simp [intOk]; omega
+      · split
+        · simp [intOk]; omega
+        · split
+          · simp [intOk]; omega
+          · simp [intOk]; omega
+
+theorem lenOk_smallest (fixMax : Nat) (has8 : Bool) (n : Nat) (h : n < 2 ^ 32) :
+    lenOk (some fixMax) has8 (smallestLen fixMax has8 n) n = true := by
+  unfold smallestLen
+  split
+  · simp [lenOk]; omega
+  · split
+    · rename_i h8; simp at h8; simp [lenOk, h8.1]; omega
+    · split
+      · simp [lenOk]; omega
+      · simp [lenOk]; omega
+
+theorem keyBytes_canon (k : V) : keyBytes (canon k) = vKeyBytes k := by
+  cases k <;> simp [canon, keyBytes, vKeyBytes]
+
+mutual
+theorem canon_ok : ∀ v, inDomain v = true → valid (canon v) = true ∧ value (canon v) = v
+  | .null, _ => by simp [canon, valid, value]
+  | .bool _, _ => by simp [canon, valid, value]
+  | .int i, h => by
+    simp only [inDomain, Bool.and_eq_true, decide_eq_true_eq] at h
+    simp [canon, valid, value, intOk_smallest i h.1 h.2]
+  | .float b, h => by
+    simp only [inDomain, decide_eq_true_eq] at h
+    simp [canon, valid, value, h]
+  | .str s, h => by
+    simp only [inDomain, Bool.and_eq_true, decide_eq_true_eq] at h
+    simp [canon, valid, value, lenOk_smallest 31 true s.length h.1, h.2]
+  | .bytes b, h => by
+    simp only [inDomain, decide_eq_true_eq] at h
+    simp only [canon, valid, value, and_true]
+    split
+    · simp [lenOk]; omega
+    · split
+      · simp [lenOk]; omega
+      · simp [lenOk]; omega
+  | .arr xs, h => by
+    simp only [inDomain, Bool.and_eq_true, decide_eq_true_eq] at h
+    have ⟨h1, h2, h3⟩ := canonL_ok xs h.2
+    simp [canon, valid, value, h1, h2, h3, lenOk_smallest 15 false xs.length h.1]
+  | .map kvs, h => by
+    simp only [inDomain, Bool.and_eq_true, decide_eq_true_eq] at h
+    have ⟨h1, h2, h3, h4⟩ := canonKV_ok kvs h.1.2
+    simp [canon, valid, value, h1, h2, h3, h4, h.2, lenOk_smallest 15 false kvs.length h.1.1]
+theorem canonL_ok : ∀ xs, inDomainL xs = true →
+    validL (canonL xs) = true ∧ valueL (canonL xs) = xs ∧ (canonL xs).length = xs.length
+  | [], _ => by simp [canonL, validL, valueL]
+  | x :: xs, h => by
+    simp only [inDomainL, Bool.and_eq_true] at h
+    have ⟨a1, a2⟩ := canon_ok x h.1
+    have ⟨b1, b2, b3⟩ := canonL_ok xs h.2
+    simp [canonL, validL, valueL, a1, a2, b1, b2, b3]
+theorem canonKV_ok : ∀ kvs, inDomainKV kvs = true →
+    validKV (canonKV kvs) = true ∧ valueKV (canonKV kvs) = kvs ∧ (canonKV kvs).length = kvs.length ∧
+      keysOf (canonKV kvs) = vKeysOf kvs
+  | [], _ => by simp [canonKV, validKV, valueKV, keysOf, vKeysOf]
+  | (k, v) :: r, h => by
+    simp only [inDomainKV, Bool.and_eq_true] at h
+    obtain ⟨⟨⟨hk, hk2⟩, hv⟩, hr⟩ := h
+    have ⟨a1, a2⟩ := canon_ok k hk2
+    have ⟨c1, c2⟩ := canon_ok v hv
+    have ⟨b1, b2, b3, b4⟩ := canonKV_ok r hr
+    simp [canonKV, validKV, valueKV, keysOf, vKeysOf, keyBytes_canon, hk, a1, a2, c1, c2, b1, b2, b3, b4]
+end
+
 end Proofs.C16.Msgpack
